@@ -109,10 +109,10 @@ theorem firstHit_none_iff (w : Nat) (mask trigger : UInt32) (win data : Bytes) :
 /-! ## (a) the hash is a function of the last `w` bytes -/
 
 /-- the state produced by `init` + `reset` holds the first `w` initial bytes -/
-theorem reset_holds (w : Nat) (hw48 : w ≤ 48) (st0 : RhState) (hst0 : st0.history.length = 48)
+theorem reset_holds (w : Nat) (hw1 : 1 ≤ w) (hw48 : w ≤ 48) (st0 : RhState) (hst0 : st0.history.length = 48)
     (initBytes : Buf) (hinit : w ≤ initBytes.size) :
     (init st0 w).1 = 0 ∧ Inv w (initBytes.toList.take w) (reset (init st0 w).2 initBytes) := by
-  rw [init_ok hw48]
+  rw [init_ok hw1 hw48]
   exact ⟨rfl, reset_inv hw48 rfl hst0 hinit⟩
 
 /-- **C09, hash.**  After `init w`, `reset` with `w` bytes and any sequence of valid `run` calls,
@@ -126,17 +126,16 @@ theorem C09_hash (scan : ScanFn) (hscan : ScanRefinesBase scan) (w : Nat) (hw1 :
     (runCalls scan (reset (init st0 w).2 initBytes) calls).1.history.take w =
         lastN w (initBytes.toList.take w ++ (runCalls scan (reset (init st0 w).2 initBytes) calls).2) ∧
     (runCalls scan (reset (init st0 w).2 initBytes) calls).1.w = w := by
-  have inv0 := (reset_holds w hw48 st0 hst0 initBytes hinit).2
+  have inv0 := (reset_holds w hw1 hw48 st0 hst0 initBytes hinit).2
   have inv := runCalls_inv hscan hw1 hw48 calls _ _ inv0 hcalls
   exact ⟨inv.hash, inv.hist, inv.w_eq⟩
 
-/-- `init` rejects exactly the windows above 48 (and does not touch the state then); note that
-`w = 0` is accepted (candidate F15) although the theorems above need `w ≥ 1`. -/
+/-- `init` accepts exactly the documented windows `1 ≤ w ≤ 48` and does not touch the state otherwise -/
 theorem init_rc (st : RhState) (w : Nat) :
-    (init st w).1 = (if w ≤ 48 then 0 else -1) ∧ (48 < w → (init st w).2 = st) := by
-  by_cases h : w ≤ 48
-  · exact ⟨by simp [init_ok h, h], fun h' => by omega⟩
-  · have h' : 48 < w := by omega
+    (init st w).1 = (if 1 ≤ w ∧ w ≤ 48 then 0 else -1) ∧ (¬ (1 ≤ w ∧ w ≤ 48) → (init st w).2 = st) := by
+  by_cases h : 1 ≤ w ∧ w ≤ 48
+  · exact ⟨by simp [init_ok h.1 h.2, h], fun h' => absurd h h'⟩
+  · have h' : w < 1 ∨ 48 < w := by omega
     simp [init_bad h', h]
 
 /-! ## (c) boundaries do not depend on how the stream is cut -/
@@ -152,7 +151,7 @@ theorem C09_boundaries (scan : ScanFn) (hscan : ScanRefinesBase scan) (w : Nat) 
       boundaries w mask trigger (initBytes.toList.take w)
         (stream.toList.take (scanStream scan stream mask trigger (reset (init st0 w).2 initBytes) 0 lens).2.1) ∧
     (scanStream scan stream mask trigger (reset (init st0 w).2 initBytes) 0 lens).2.1 ≤ stream.size := by
-  have inv0 := (reset_holds w hw48 st0 hst0 initBytes hinit).2
+  have inv0 := (reset_holds w hw1 hw48 st0 hst0 initBytes hinit).2
   have hpre : (initBytes.toList.take w).length = w := inv0.win_length hw48
   have inv0' : Inv w (lastN w (initBytes.toList.take w ++ stream.toList.take 0))
       (reset (init st0 w).2 initBytes) := by
@@ -193,7 +192,7 @@ theorem C09_split_progress (scan : ScanFn) (hscan : ScanRefinesBase scan) (w : N
     (hinit : w ≤ initBytes.size) (stream : Buf) (hsz : stream.size < 2 ^ 32) (mask trigger : UInt32)
     (lens : List Nat) (hpos : ∀ m ∈ lens, 1 ≤ m) (hmany : stream.size ≤ lens.length) :
     (scanStream scan stream mask trigger (reset (init st0 w).2 initBytes) 0 lens).2.1 = stream.size := by
-  have inv0 := (reset_holds w hw48 st0 hst0 initBytes hinit).2
+  have inv0 := (reset_holds w hw1 hw48 st0 hst0 initBytes hinit).2
   have hpre : (initBytes.toList.take w).length = w := inv0.win_length hw48
   have inv0' : Inv w (lastN w (initBytes.toList.take w ++ stream.toList.take 0))
       (reset (init st0 w).2 initBytes) := by
@@ -227,7 +226,7 @@ def exSt : RhState := reset (init {} 2).2 #[7, 7]
 example : (run runUntilBase exSt #[0, 1, 2] 3 3 2).ret = ISAL_FINGERPRINT_RET_HIT ∧
     (run runUntilBase exSt #[0, 1, 2] 3 3 2).offset = 2 := by
   have inv : Inv 2 [7, 7] exSt :=
-    (reset_holds 2 (by decide) {} (by decide) #[7, 7] (by decide)).2
+    (reset_holds 2 (by decide) (by decide) {} (by decide) #[7, 7] (by decide)).2
   have h := (C09_run runUntilBase base_refines 2 (by decide) (by decide) [7, 7] exSt inv
     #[0, 1, 2] 3 (Nat.le_refl _) (by omega) 3 2).1
   have hf : firstHit 2 3 2 [7, 7] (#[0, 1, 2].toList.take 3) = some 2 := by decide +kernel
